@@ -2,7 +2,7 @@
 
 use crate::ctx::Ctx;
 use crate::env::{Cond, Env};
-use crate::json::J;
+use crate::json::{fvec, J};
 use crate::labels::to_strings;
 use crate::rng::{hash_f64s, hash_str, mix, Rng};
 use crate::voicegen::{self, NodeSpec, QuestionPool, VoiceOpts};
@@ -907,6 +907,91 @@ pub fn run(ctx: &mut Ctx) {
             _ => ctx.violation("synthesize-err", J::from("batch-between-steps")),
         }
         ctx.nontrivial(mix(&[41, idx as u64]));
+    });
+    // other engines with *other settings* speak the same utterance in between: an engine's
+    // output depends on its own settings only (nothing keyed on the utterance alone survives)
+    let n = ctx.n(24, 500);
+    ctx.run_cases("other-engines-in-between", n, false, |ctx, rng, idx| {
+        use std::sync::Arc;
+        let labels = env.corpus.random_utterance(rng, 3, 8);
+        if idx % 2 == 0 {
+            // (a) time-stamped lines under alignment; another engine with another frame period
+            // (or rate) speaks them first. The same stamps spelled "123.0" instead of "123" are the
+            // same utterance.
+            let mut t = 0u64;
+            let stamps: Vec<(u64, u64)> = labels
+                .iter()
+                .map(|_| {
+                    let a = t;
+                    t += rng.range(400_000, 2_500_000) as u64;
+                    (a, t)
+                })
+                .collect();
+            let plain: Vec<String> = labels.iter().zip(&stamps).map(|(l, (a, b))| format!("{} {} {}", a, b, l)).collect();
+            let dotted: Vec<String> = labels.iter().zip(&stamps).map(|(l, (a, b))| format!("{}.0 {}.0 {}", a, b, l)).collect();
+            let mut first = env.load_bundled();
+            first.condition.set_phoneme_alignment_flag(true);
+            if idx % 4 == 0 {
+                first.condition.set_fperiod(*rng.pick(&[200usize, 120, 300]));
+            } else {
+                first.condition.set_sampling_frequency(*rng.pick(&[16000usize, 22050, 96000]));
+            }
+            let _ = first.synthesize(plain.clone());
+            let mut e = env.load_bundled();
+            e.condition.set_phoneme_alignment_flag(true);
+            match (e.synthesize(plain.clone()), e.synthesize(dotted)) {
+                (Ok(a), Ok(b)) => {
+                    ctx.count("utterances_spoken_by_another_engine_first", 1.0);
+                    if !bits_eq(&a, &b) {
+                        ctx.violation(
+                            "output-depends-on-what-another-engine-spoke-before",
+                            J::obj().set("what", "time-stamped lines, alignment on; another engine with another frame period / rate spoke the same lines first; the same stamps spelled with '.0' give another waveform").set("len", a.len()).set("len_other_spelling", b.len()),
+                        );
+                    }
+                }
+                _ => ctx.violation("synthesize-err", J::from("other-engines-in-between (a)")),
+            }
+        } else {
+            // (b) two engines over the same two voices with different interpolation weights
+            let Ok(v) = jbonsai::model::load_htsvoice_file(&env.bundled_path) else { return };
+            let bytes2 = voicegen::perturb(&env.bundled_bytes, rng, 0.3);
+            let p2 = env.voice_file(&bytes2);
+            let v2 = jbonsai::model::load_htsvoice_file(&p2);
+            env.remove(&p2);
+            let Ok(v2) = v2 else { return };
+            let voices = vec![Arc::new(v), Arc::new(v2)];
+            let (Ok(mut e1), Ok(mut e2)) = (crate::env::engine_from_voices(voices.clone()), crate::env::engine_from_voices(voices)) else { return };
+            let w1 = *rng.pick(&[[0.7, 0.3], [0.2, 0.8], [0.9, 0.1]]);
+            let w2 = *rng.pick(&[[0.5, 0.5], [0.4, 0.6], [1.0, 0.0]]);
+            for (e, w) in [(&mut e1, w1), (&mut e2, w2)] {
+                let iw = e.condition.get_interporation_weight_mut();
+                let _ = iw.set_duration(&w);
+                for s in 0..3 {
+                    let _ = iw.set_parameter(s, &w);
+                    let _ = iw.set_gv(s, &w);
+                }
+            }
+            let other = env.corpus.random_utterance(rng, 2, 4);
+            let Ok(r1) = e1.synthesize(labels.clone()) else {
+                ctx.violation("synthesize-err", J::from("other-engines-in-between (b)"));
+                return;
+            };
+            let _ = e2.synthesize(other);
+            let _ = e2.synthesize(labels.clone());
+            match e1.synthesize(labels.clone()) {
+                Ok(r2) => {
+                    ctx.count("utterances_spoken_by_another_engine_in_between", 1.0);
+                    if !bits_eq(&r1, &r2) {
+                        ctx.violation(
+                            "output-depends-on-what-another-engine-spoke-before",
+                            J::obj().set("what", "two voices; another engine with other interpolation weights spoke the same utterance in between; repeating the call gives another waveform").set("weights", fvec(&w1, 4)).set("weights_of_the_other_engine", fvec(&w2, 4)),
+                        );
+                    }
+                }
+                Err(_) => ctx.violation("synthesize-err", J::from("other-engines-in-between (b)")),
+            }
+        }
+        ctx.nontrivial(mix(&[43, idx as u64]));
     });
     // the tiny-voice thread workload also runs natively (and under TSan)
     ctx.run_cases("tiny-threads", 4, true, |ctx, _rng, idx| {
